@@ -343,8 +343,8 @@ func (c *Ctx) RuleSiblingRuleId() *Result {
 			continue
 		}
 		for _, p := range fn.Params {
-			if b, ok := p.Type().Underlying().(*types.Basic); !ok || b.Kind() != types.Uint8 {
-				continue
+			if b, ok := p.Type().(*types.Basic); !ok || b.Kind() != types.Uint8 {
+				continue // a plain uint8 is a chain offset; a named type on top of it (a mode) is not
 			}
 			res.Instances++
 			key := fmt.Sprintf("%s:parameter %s is used", load.FnName(fn), p.Name())
@@ -414,7 +414,7 @@ func (c *Ctx) RuleSiblingRuleId() *Result {
 				return
 			}
 			for i, a := range call.Call.Args {
-				if b, ok := a.Type().Underlying().(*types.Basic); !ok || b.Kind() != types.Uint8 {
+				if b, ok := a.Type().(*types.Basic); !ok || b.Kind() != types.Uint8 {
 					continue
 				}
 				if i >= len(sf.Params) {
